@@ -784,7 +784,7 @@ Module Counterexample.
   Definition mk_kid (namespaced : bool) := mkChild "v1" "things" "Thing" namespaced "Recreate".
   Definition mk_cfg (namespaced : bool) : ccfg :=
     mkCfg "cc" "v1" "Parent" "parents" false true true sel_everything [mk_kid namespaced] true false
-          [mk_kid namespaced] false false.
+          [mk_kid namespaced] false false [["spec"]] [].
   Definition parent : json :=
     JObj [("apiVersion", JStr "v1"); ("kind", JStr "Parent");
           ("metadata", JObj [("name", JStr "p"); ("uid", JStr "u1")])].
